@@ -90,7 +90,8 @@ def c14(report, cfg, drounds_list, collect=None):
             rows = state_rows(it, cell.v)
             expd = bv.add(d[:64], bv.const(4, 64)) + d[64:]
             if rows[0] != b or rows[1] != c or rows[2] != expd:
-                report.violated("R14.1", key + ":state", "refill4 leaves a state other than (key, counter+4 as 64-bit, stream id)")
+                report.violated("R14.1", key + ":state", "refill4 leaves a state other than (key, counter+4 as 64-bit, stream id)",
+                                graphs=(bv.concat(rows), b + c + expd))
                 return
             report.ok("R14.1", key, sample={"fn": "refill4", "drounds": dr, "config": cfg, "atoms": bv.n_atoms()})
         engine_guard(wide, report, "R14.1", key)
@@ -114,7 +115,8 @@ def c14(report, cfg, drounds_list, collect=None):
             rows = state_rows(it, cell.v)
             expd = bv.add(d[:64], bv.const(1, 64)) + d[64:]
             if rows[0] != b or rows[1] != c or rows[2] != expd:
-                report.violated("R14.2", nkey + ":state", "refill leaves a state other than (key, counter+1 as 64-bit, stream id)")
+                report.violated("R14.2", nkey + ":state", "refill leaves a state other than (key, counter+1 as 64-bit, stream id)",
+                                graphs=(bv.concat(rows), b + c + expd))
                 return
             if not bad:
                 report.ok("R14.2", nkey)
@@ -135,9 +137,10 @@ def c14(report, cfg, drounds_list, collect=None):
                 it.call_instance(refill, [Ptr(cell2, ()), bv.const(dr, 32), Ptr(c1, ())])
                 outs.append(cell_bytes(c1))
             if cell_bytes(ocell) != bv.concat(outs):
-                report.violated("R14.3", ekey, "refill4 output differs from four consecutive refill outputs")
+                report.violated("R14.3", ekey, "refill4 output differs from four consecutive refill outputs", graphs=(cell_bytes(ocell), bv.concat(outs)))
             elif state_rows(it, cell.v) != state_rows(it, cell2.v):
-                report.violated("R14.3", ekey, "state after refill4 differs from the state after four refills")
+                report.violated("R14.3", ekey, "state after refill4 differs from the state after four refills",
+                                graphs=(bv.concat(state_rows(it, cell.v)), bv.concat(state_rows(it, cell2.v))))
             else:
                 report.ok("R14.3", ekey)
         engine_guard(equal, report, "R14.3", ekey)
@@ -157,7 +160,7 @@ def c15(report, cfg):
             v = bv.inp("v", 64)
             before = it.call_instance(getp, [Ptr(cell, ()), bv.const(p, 32)])
             if before != d[64 * p:64 * p + 64]:
-                report.violated("R15.1", key + ":get", "get_stream_param(%d) is not words %d,%d of d" % (p, 2 * p, 2 * p + 1))
+                report.violated("R15.1", key + ":get", "get_stream_param(%d) is not words %d,%d of d" % (p, 2 * p, 2 * p + 1), graphs=(before, d[64 * p:64 * p + 64]))
                 return
             it.call_instance(setp, [Ptr(cell, ()), bv.const(p, 32), v])
             if audit(it, report, "R15.1", key):
@@ -166,12 +169,14 @@ def c15(report, cfg):
             expd = list(d)
             expd[64 * p:64 * p + 64] = v
             if rows[0] != b or rows[1] != c or rows[2] != tuple(expd):
-                report.violated("R15.1", key, "set_stream_param(%d, v) does not yield (key unchanged, d with only words %d,%d replaced by v)" % (p, 2 * p, 2 * p + 1))
+                report.violated("R15.1", key, "set_stream_param(%d, v) does not yield (key unchanged, d with only words %d,%d replaced by v)" % (p, 2 * p, 2 * p + 1),
+                                graphs=(bv.concat(rows), b + c + tuple(expd)))
                 return
             after = it.call_instance(getp, [Ptr(cell, ()), bv.const(p, 32)])
             other = it.call_instance(getp, [Ptr(cell, ()), bv.const(1 - p, 32)])
             if after != v or other != d[64 * (1 - p):64 * (1 - p) + 64]:
-                report.violated("R15.1", key + ":roundtrip", "get after set does not return v / disturbs the other parameter")
+                report.violated("R15.1", key + ":roundtrip", "get after set does not return v / disturbs the other parameter",
+                                graphs=(after + other, v + d[64 * (1 - p):64 * (1 - p) + 64]))
                 return
             report.ok("R15.1", key, sample={"param": p, "config": cfg})
         engine_guard(go, report, "R15.1", key)
@@ -200,7 +205,7 @@ def c15(report, cfg):
                 got_ops = _conj_inputs(r[0])
                 exp_ops = _conj_inputs(exp)
                 report.violated("R15.2", key, "%s is not the conjunction of equality of key rows and d words %s; compared bits missing: %s, extra: %s"
-                                % (name, words, sorted(exp_ops - got_ops)[:6], sorted(got_ops - exp_ops)[:6]))
+                                % (name, words, sorted(exp_ops - got_ops)[:6], sorted(got_ops - exp_ops)[:6]), graphs=(r, (exp,)))
         engine_guard(eq, report, "R15.2", key)
 
 
@@ -231,6 +236,14 @@ def alias_type(f, name):
     if len(cands) != 1:
         raise Undecided("alias %s: %d candidate types" % (name, len(cands)))
     return cands[0]
+
+
+class Msg(str):
+    """A finding text that carries the two differing value graphs (for the witness search)."""
+    def __new__(cls, text, graphs=None):
+        o = str.__new__(cls, text)
+        o.graphs = graphs
+        return o
 
 
 def field(it, v, t, name):
@@ -310,7 +323,8 @@ def c01_new(report, cfg):
             if rows != [eb, ec, ed]:
                 which = [n for n, a, b in zip("bcd", rows, (eb, ec, ed)) if a != b]
                 report.violated("R1.4", key, "%s::new: state row(s) %s differ from the specified key/nonce/counter layout%s"
-                                % (name, ",".join(which), " (HChaCha subkey with %d double rounds)" % dr if isx else ""))
+                                % (name, ",".join(which), " (HChaCha subkey with %d double rounds)" % dr if isx else ""),
+                                graphs=(bv.concat(rows), eb + ec + ed))
                 return
             report.ok("R1.4", key, sample={"alias": name, "nonce_bytes": nonce, "double_rounds": dr, "x": isx, "config": cfg})
         engine_guard(go, report, "R1.4", key)
@@ -382,7 +396,7 @@ def run_history(it, f, name, ops, report, rule, key):
             i = bv.first_diff(got, exp)
             if i is not None:
                 report.violated(rule, key, "%s: byte %d of a %d-byte request at stream position %d is not data ^ keystream[%d] (history %s)"
-                                % (name, i // 8, n, pos, pos + i // 8, ops))
+                                % (name, i // 8, n, pos, pos + i // 8, ops), graphs=(got, exp))
                 return False
             pos += n
     return True
@@ -527,8 +541,8 @@ def run_history_modular(f, name, ops):
                   exp = bv.xor(dbits, ks[off:off + 8 * n])
                   i = bv.first_diff(got, exp)
                   if i is not None:
-                      findings.append(("apply:wrong-keystream", "%s: byte %d of a %d-byte request at absolute position %#x is not data ^ keystream[%#x] [%s]"
-                                       % (name, i // 8, n, pos, pos + i // 8, hist)))
+                      findings.append(("apply:wrong-keystream", Msg("%s: byte %d of a %d-byte request at absolute position %#x is not data ^ keystream[%#x] [%s]"
+                                       % (name, i // 8, n, pos, pos + i // 8, hist), (got, exp))))
                       return findings
                   pos += n
         except Diverge as dv:
@@ -630,7 +644,7 @@ def c02_histories(report, cfg, name, tier, rule="R2.3", chunk=None):
             key = "%s:%s@%s" % (name, site, cfg)
             if key not in seen:
                 seen[key] = msg
-                report.violated(rule, key, msg)
+                report.violated(rule, key, str(msg), graphs=getattr(msg, "graphs", None))
         if not fs:
             report.ok(rule, "%s:%s@%s" % (name, " ".join("%s%s" % (o[0][0], hex(o[1]) if len(o) > 1 else "") for o in ops), cfg),
                       sample={"alias": name, "history": [list(o) for o in ops]} if done % 97 == 1 else None)
@@ -731,7 +745,7 @@ def c11_histories(report, cfg, name, chunk=None):
             key = "%s:%s@%s" % (name, site, cfg)
             if key not in seen:
                 seen.add(key)
-                report.violated(rule, key, msg)
+                report.violated(rule, key, str(msg), graphs=getattr(msg, "graphs", None))
         if not fs:
             report.ok("R11.2", "%s:%s@%s" % (name, " ".join("%s%s" % (o[0][0], hex(o[1]) if len(o) > 1 else "") for o in ops), cfg),
                       sample={"alias": name, "history": [list(o) for o in ops]} if done % 23 == 1 else None)
